@@ -2,8 +2,8 @@ SPECIFICATION Spec
 CONSTANTS
   Thr = {"A", "B"}
   Steps = 4
-  LazyTable = FALSE
-  SharedWorkspace = TRUE
+  LazyTable = TRUE
+  SharedWorkspace = FALSE
   Export = FALSE
 INVARIANT Inv
 VIEW view
